@@ -130,7 +130,7 @@ LinksFaithful(T, file) == \A x \in T : \E f \in file : f.id = x.id /\ x.link = L
 
 \* the part of well-formedness that survives trimming: what holds of the rows of a loaded frame
 \* every loaded row still says what the file entry at the position named by its id said
-RowsFaithful(T, file) == /\ \A x \in T : \E f \in file : f.id = x.id /\ f.name = x.name /\ f.cat = x.cat /\ f.stream = x.stream
+RowsFaithful(T, file) == /\ \A x \in T : \E f \in file : f.id = x.id /\ f.name = x.name /\ f.cat = x.cat /\ f.stream = x.stream /\ f.dur = x.dur
                          /\ RowsComplete(T, file)
 
 WellFormedRows(T) ==
